@@ -488,6 +488,9 @@ def line_seg_pt_intersect_at_dim(
         return None
 
     point_on_line = P1 + t * (P2 - P1)
+    # The intersection lies on the target hyperplane by construction; do not let rounding in
+    # the interpolation move it off by an ulp (callers compare this coordinate with <= / >=).
+    point_on_line[target_dim] = target_pt[target_dim]
     return point_on_line
 
 
